@@ -1,4 +1,4 @@
-CONSTANTS CiStart = 14 K = 39 NP = 3 Sizes = {1, 34, 37, 40, 77, 300} Fills = {0, 2} MaxBlocks = 3 Faults = {"none", "drop", "err2"} Units = {"bp"} Policies = {"strict"} UnitBlocks = 3 TailCheck = TRUE Foreign = {"none", "page", "stream", "mag"} TailAtForeign = TRUE
+CONSTANTS CiStart = 14 K = 39 NP = 3 Sizes = {1, 34, 37, 40, 77, 300} Fills = {0, 2} MaxBlocks = 3 Faults = {"none", "drop", "err2"} Units = {"bp"} Policies = {"strict"} UnitBlocks = 3 TailCheck = TRUE Foreign = {"none", "page", "stream", "mag"} TailAtForeign = TRUE Noise = {0} NoisePos = {"all"} NoiseFaults = {"none"}
 SPECIFICATION GLeapSpec
 CONSTRAINT Dump
 INVARIANTS Sound Complete Resume
